@@ -13,3 +13,5 @@ import TmVerif.Props.C02
 import TmVerif.Props.C07
 import TmVerif.Props.C09
 import TmVerif.Props.C19
+import TmVerif.Proofs.NoAbs
+import TmVerif.Props.C03
